@@ -5464,13 +5464,16 @@ fn eval_built_in_method_call(
             let value_to_insert = &arg_values[1];
 
             match receiver_value.as_ref() {
-                Value_::Dict { items, .. } => {
+                Value_::Dict { items, value_type } => {
                     let items = items.insert(key_to_insert.clone(), value_to_insert.clone());
 
                     if expr_value_is_used {
                         // TODO: check that the new value has the same
                         // type as the existing dict values.
-                        let value_type = Type::from_value(&arg_values[1]);
+                        let value_type = more_general_type(
+                            value_type.clone(),
+                            Type::from_value(&arg_values[1]),
+                        );
 
                         env.push_value(Value::new(Value_::Dict { items, value_type }));
                     }
@@ -6758,12 +6761,7 @@ fn eval_expr(
                     // Use the most general type of the values, so
                     // the type doesn't depend on the order in which
                     // the entries were written: dicts have no order.
-                    let this_value_type = Type::from_value(&value_value);
-                    if is_subtype(&value_type, &this_value_type) {
-                        value_type = this_value_type;
-                    } else if !is_subtype(&this_value_type, &value_type) {
-                        value_type = Type::Any;
-                    }
+                    value_type = more_general_type(value_type, Type::from_value(&value_value));
 
                     let key_value = env
                         .pop_value()
@@ -7601,6 +7599,19 @@ fn eval_dot_access(
     }
 
     Ok(())
+}
+
+/// The more general of two value types, or `Any` if neither is a
+/// subtype of the other. Used for the value type of a dict, which must
+/// not depend on the order in which its entries were added.
+fn more_general_type(ty: Type, other_ty: Type) -> Type {
+    if is_subtype(&ty, &other_ty) {
+        other_ty
+    } else if is_subtype(&other_ty, &ty) {
+        ty
+    } else {
+        Type::Any
+    }
 }
 
 fn eval_struct_value(
